@@ -6,7 +6,7 @@
 //    (t, e) on a dyadic grid so that t-e and t+e are exactly representable in the check-up's scalar
 //    type, hence the floating verdict must coincide with the real one for every value, including the
 //    threshold itself and its nextafter neighbours.  Generic regime: random operands, the verdict
-//    is demanded only outside a band of 4 eps(T) max(|t|,|e|) around a threshold (the library's
+//    is demanded only outside a band of 8 eps(T) max(|t|,|e|) around a threshold (the library's
 //    threshold fl(t+-e) is within eps/2*|t+-e| <= eps*max(|t|,|e|) of the real one); inside the band
 //    either neighbouring verdict is accepted, the case is counted as an ambiguity skip, and only the
 //    mutual consistency of (returned status, stored status, message, info) is checked.
@@ -366,10 +366,10 @@ template<class T> static T gen_value_fp(vh::Rng & r, const Setup<T> & s, int kin
   T v;
   int m = (int)r.range(0, 11);
   if (!s.exact && (m == 1 || m == 3 || m == 5 || m == 7)) {
-    // generic regime: just outside the ambiguity band (4.5 .. 1e4 eps max(|t|,|e|) from the threshold),
+    // generic regime: just outside the ambiguity band (8.5 .. 1e4 eps max(|t|,|e|) from the threshold),
     // where a verdict is demanded and a threshold that is off by a few ulps would show
     T mag = std::max(std::fabs(s.t), std::fabs(s.e));
-    T off = (T)(r.logu(4.5, 1e4)) * std::numeric_limits<T>::epsilon() * mag;
+    T off = (T)(r.logu(8.5, 1e4)) * std::numeric_limits<T>::epsilon() * mag;
     v = r.coin() ? thr + off : thr - off;
     if (v != thr) {cat("value_just_outside_band"); tag = TAG_NEARBAND;}
     return clampfin<T>(v);
@@ -448,7 +448,7 @@ template<class T> static void threshold_case(vh::Ctx & c, vh::Rng & r, int kind)
   d.band = 0;
   if (!s.exact) {
     LD m = std::max(fabsl(d.t), fabsl(d.e));
-    d.band = 4 * (LD)std::numeric_limits<T>::epsilon() * m;
+    d.band = 8 * (LD)std::numeric_limits<T>::epsilon() * m;
   }
   d.custom_initial = r.coin(0.3);
   std::string cname = std::string(KN[kind]) + "_" + Tr<T>::nm();
